@@ -35,6 +35,18 @@ def c13_cases(tier, seed):
                 steps.append({"op": "update", "args": list(range(1, n + 1)), "lr": sc(lr)})
                 steps += [{"op": "grad", "args": [1 + k], "res": 60 + 10 * rnd_round + k} for k in range(n)]
             cases.append(steps)
+    # long parameter lists: totals above 64 / 128 elements, not multiples of the usual block sizes
+    for shp in ([[70]], [[100]], [[64]], [[128]], [[8, 8], [8]], [[5, 13], [3], [2, 2]], [[33], [31], [1]], [[9, 9], [9, 9]],
+                [[16, 4], [4], [4, 2], [2]], [[130]], [[3, 7, 5]]):
+        for has in ([True] * len(shp), [k % 2 == 0 for k in range(len(shp))]):
+            steps = [RESET]
+            for k, d in enumerate(shp):
+                steps.append(leaf(1 + k, d, [((3 * k + i) % 17) - 8 for i in range(prod(d))], trk=True))
+            for k, d in enumerate(shp):
+                if has[k]:
+                    steps.append({"op": "setgrad", "args": [1 + k], "g": tensor(d, [F(((5 * k + i) % 13) - 6, 2) for i in range(prod(d))])})
+            steps.append({"op": "update", "args": list(range(1, len(shp) + 1)), "lr": sc(rnd.choice([F(1, 2), F(3, 4), -2]))})
+            cases.append(steps)
     # gradients deposited by real passes; frozen parameters in between
     for _ in range(400 if tier == "thorough" else 60):
         n = rnd.randint(2, 4)
